@@ -1,10 +1,195 @@
+// restlicheck decides the structural clauses of one go-restli property by
+// static analysis of /repo's current source.
 package main
 
 import (
-	_ "golang.org/x/tools/go/callgraph/vta"
-	_ "golang.org/x/tools/go/cfg"
-	_ "golang.org/x/tools/go/packages"
-	_ "golang.org/x/tools/go/ssa/ssautil"
+	"encoding/json"
+	"flag"
+	"fmt"
+	"os"
+	"path/filepath"
+	"strconv"
+	"sync"
+	"time"
+
+	"verif/checker/core"
+	"verif/checker/corpus"
+	_ "verif/checker/rules"
 )
 
-func main() {}
+func main() {
+	prop := flag.String("property", "", "property id (C01..C20)")
+	tier := flag.String("tier", "quick", "quick|thorough")
+	repo := flag.String("repo", "/repo", "repository root")
+	verif := flag.String("verif", "/verif", "verif root")
+	explain := flag.String("explain", "", "print a saved violations file")
+	list := flag.Bool("list", false, "list rules")
+	only := flag.String("rule", "", "run only this rule (development)")
+	flag.Parse()
+	start := time.Now()
+	core.RepoRoot = *repo
+
+	if *explain != "" {
+		b, err := os.ReadFile(*explain)
+		if err != nil {
+			fmt.Fprintln(os.Stderr, err)
+			os.Exit(2)
+		}
+		var v struct {
+			Property   string             `json:"property"`
+			Violations []*core.Obligation `json:"violations"`
+			Floors     []string           `json:"floor_failures"`
+		}
+		if err := json.Unmarshal(b, &v); err != nil {
+			fmt.Fprintln(os.Stderr, err)
+			os.Exit(2)
+		}
+		for _, o := range v.Violations {
+			fmt.Printf("%s: %s [%s] %s %s.%s: %s — %s\n", o.Pos, o.Verdict, o.Rule, o.Module, o.Pkg, o.Func, o.Construct, o.Detail)
+		}
+		for _, f := range v.Floors {
+			fmt.Println("FLOOR:", f)
+		}
+		return
+	}
+	if *list {
+		for _, r := range core.Registry {
+			fmt.Printf("%-7s %v %s\n", r.ID, r.Props, r.Title)
+		}
+		return
+	}
+	if *prop == "" {
+		fmt.Fprintln(os.Stderr, "usage: restlicheck -property C0N -tier quick|thorough")
+		os.Exit(2)
+	}
+	if *tier != "quick" && *tier != "thorough" {
+		fmt.Fprintln(os.Stderr, "tier must be quick or thorough")
+		os.Exit(2)
+	}
+	seed := 0
+	if s := os.Getenv("VERIF_SEED"); s != "" {
+		seed, _ = strconv.Atoi(s)
+	}
+	rules := core.RulesFor(*prop, *tier)
+	if *only != "" {
+		var f []*core.Rule
+		for _, r := range rules {
+			if r.ID == *only {
+				f = append(f, r)
+			}
+		}
+		rules = f
+	}
+	if len(rules) == 0 {
+		fmt.Fprintf(os.Stderr, "no rules registered for %s\n", *prop)
+		os.Exit(2)
+	}
+	known, err := core.LoadKnown(filepath.Join(*verif, "known_findings.json"))
+	if err != nil {
+		fmt.Fprintln(os.Stderr, err)
+		os.Exit(2)
+	}
+
+	want := map[string]bool{}
+	needCorpus := false
+	for _, r := range rules {
+		if r.Generated {
+			needCorpus = true
+			continue
+		}
+		mods := r.Modules
+		if mods == nil {
+			mods = []string{"v2", "root"}
+		}
+		for _, m := range mods {
+			want[m] = true
+		}
+	}
+	var mods map[string]*core.Module
+	var corp []*corpus.Generated
+	var wg sync.WaitGroup
+	var loadErr, corpErr error
+	wg.Add(1)
+	go func() {
+		defer wg.Done()
+		mods, loadErr = core.LoadRepo(want)
+	}()
+	if needCorpus {
+		wg.Add(1)
+		go func() {
+			defer wg.Done()
+			corp, corpErr = corpus.Build(*verif, *tier)
+		}()
+	}
+	wg.Wait()
+	defer corpus.Cleanup(corp)
+	fail := func(err error) {
+		// Infrastructure failure: the property was not decided.  It is
+		// reported as a violation line so that it can never look like a pass.
+		fmt.Printf("ERROR: %v\n", err)
+		fmt.Printf("VIOLATION property=%s replay=%s\n", *prop, "-")
+		corpus.Cleanup(corp)
+		os.Exit(1)
+	}
+	if loadErr != nil {
+		fail(loadErr)
+	}
+	if corpErr != nil {
+		fail(corpErr)
+	}
+	pkgCount := map[string]int{}
+	for n, m := range mods {
+		pkgCount[n] = len(m.Roots)
+	}
+
+	var mu sync.Mutex
+	var obs []*core.Obligation
+	var notes []string
+	var rwg sync.WaitGroup
+	sem := make(chan struct{}, 16)
+	extra := map[string]interface{}{}
+	for _, r := range rules {
+		if r.Generated {
+			for _, g := range corp {
+				rwg.Add(1)
+				go func(r *core.Rule, g *corpus.Generated) {
+					defer rwg.Done()
+					sem <- struct{}{}
+					defer func() { <-sem }()
+					core.RunRule(r, g.Module, *tier, g.Corpus, &mu, &obs, &notes)
+				}(r, g)
+			}
+			continue
+		}
+		rm := r.Modules
+		if rm == nil {
+			rm = []string{"v2", "root"}
+		}
+		for _, name := range rm {
+			m := mods[name]
+			if m == nil {
+				continue
+			}
+			rwg.Add(1)
+			go func(r *core.Rule, m *core.Module) {
+				defer rwg.Done()
+				sem <- struct{}{}
+				defer func() { <-sem }()
+				core.RunRule(r, m, *tier, nil, &mu, &obs, &notes)
+			}(r, m)
+		}
+	}
+	rwg.Wait()
+	if needCorpus {
+		names := []string{}
+		for _, g := range corp {
+			names = append(names, g.Corpus.Name)
+			pkgCount["corpus:"+g.Corpus.Name] = len(g.Module.Roots)
+		}
+		extra["programs"] = len(corp)
+		extra["corpus_manifests"] = names
+	}
+	code := core.Finish(*prop, *tier, rules, obs, notes, pkgCount, known, *verif, start, seed, extra)
+	corpus.Cleanup(corp)
+	os.Exit(code)
+}
